@@ -1,6 +1,7 @@
 import TsVerif.Common.IO
 import TsVerif.C07.Judge
 import TsVerif.C07.Ranges
+import TsVerif.C07.Walks
 /-!
 Driver for C07.  Input lines (written by harness/src/bin/c07.rs):
 
@@ -35,6 +36,8 @@ structure St where
   bad : Option String := none
   jbad : Option String := none
   n : Nat := 0
+  /-- `list.size` the REAL capture-list pool reported after the previous operation -/
+  clRealSize : Nat := 0
 
 def kvGet (ws : List String) (k : String) : String :=
   (ws.findSome? fun w => match w.splitOn "=" with | [a, b] => if a == k then some b else none | _ => none).getD ""
@@ -98,7 +101,7 @@ def step (s : St) (line : String) : IO St := do
     let j := match s.jbad with | some b => s!"FAIL:pool:{b}" | none => "ok"
     IO.println s!"{id} kind=pw corr={corr} judge={j} ops={s.n}"
     return s
-  | "clcase" :: _ => return { s with cl := { inUse := [], max := 4294967295, freeCount := 0 }, bad := none, jbad := none, n := 0 }
+  | "clcase" :: _ => return { s with cl := { inUse := [], max := 4294967295, freeCount := 0 }, bad := none, jbad := none, n := 0, clRealSize := 0 }
   | "clop" :: op => return { s with op := op }
   | "clreal" :: ws =>
     let before := s.cl
@@ -110,8 +113,19 @@ def step (s : St) (line : String) : IO St := do
     let jb := if s.op == ["A"] && rid != "NONE" && before.inUse.getD (natOf rid) false then some s!"op#{s.n}:acquire-returned-list-in-use:{rid}"
       else if natOf (kvGet ws "size") > before.max && s.op == ["A"] then some s!"op#{s.n}:pool-exceeds-limit"
       else if !capOkB p' then some s!"op#{s.n}:model-invariant"
-      else none
-    return { s with cl := p', bad := bad, jbad := s.jbad <|> jb, n := s.n + 1 }
+      else
+        -- the elements of list.contents this operation touches (Walks.lean) must exist in the REAL array
+        let cop : Option CapOp := match s.op with
+          | ["A"] => some .acquire
+          | ["R", i] => some (.release (natOf i))
+          | ["X"] => some .reset
+          | _ => none
+        match cop with
+        | some o => if (capAccesses before o).all (fun i => decide (i < s.clRealSize)) then none
+                    else some s!"op#{s.n}:access-beyond-real-list-size:{s.clRealSize}"
+        | none => none
+    let realSize := if s.op == ["N"] then 0 else natOf (kvGet ws "size")
+    return { s with cl := p', bad := bad, jbad := s.jbad <|> jb, n := s.n + 1, clRealSize := realSize }
   | "clend" :: id :: ws =>
     let corr := match s.bad with | some b => s!"DIFF:{b}" | none => if kvGet ws "ops" == kvGet ws "answered" then "ok" else "DIFF:cunit-died"
     let j := match s.jbad with | some b => s!"FAIL:capture-pool:{b}" | none => "ok"
